@@ -111,13 +111,13 @@ type Rec struct {
 	Offset     uint64
 	Length     uint64
 	// Statistics
-	MsgCount                               uint64
-	SchemaCount                            uint16
+	MsgCount                                    uint64
+	SchemaCount                                 uint16
 	ChannelCount, AttCount, MdCount, ChunkCount uint32
-	PerChannel                             []ChOff
+	PerChannel                                  []ChOff
 	// SummaryOffset
-	GroupOp                  byte
-	GroupStart, GroupLen     uint64
+	GroupOp              byte
+	GroupStart, GroupLen uint64
 }
 
 type cursor struct {
